@@ -439,11 +439,13 @@ Section ExpandProofs.
     - change (last (t :: t2 :: ts) d) with (last (t2 :: ts) d). apply IH; auto. discriminate.
   Qed.
 
-  Lemma last_app_cons {A} (a : list A) x b d : last (a ++ x :: b) d = last (x :: b) d.
+  Lemma last_app_cons {A} (a : list A) x b d : last (a ++ x :: b)%list d = last (x :: b) d.
   Proof.
-    induction a as [|y a IH]; auto. simpl app. destruct (a ++ x :: b) eqn:E.
+    induction a as [|y a IH]; auto.
+    change ((y :: a) ++ x :: b)%list with (y :: (a ++ x :: b))%list.
+    destruct (a ++ x :: b)%list as [|a0 l] eqn:E.
     - destruct a; discriminate.
-    - rewrite <- E. simpl. rewrite E. rewrite <- E. exact IH.
+    - change (last (y :: a0 :: l) d) with (last (a0 :: l) d). exact IH.
   Qed.
 
   Definition radius_result (h v : list tok) : res (list (string * list tok)) :=
